@@ -54,6 +54,7 @@ CORPUS = {
         M("range-two-args-swapped", G, [("            start = self.compile_node(args[0])\n            end = self.compile_node(args[1])\n        elif n_args == 3:", "            start = self.compile_node(args[1])\n            end = self.compile_node(args[0])\n        elif n_args == 3:")], ["R01.h"]),
         M("select-pair-swapped", G, [('data.add(IC10("select", [index, array[1], array[0]], sym))', 'data.add(IC10("select", [index, array[0], array[1]], sym))')], ["R01.i"]),
         M("select-chain-wrong-element", G, [('data.add(IC10("select", [t, array[i], sym], sym))', 'data.add(IC10("select", [t, array[i - 1], sym], sym))')], ["R01.i"]),
+        M("batch-load-mode-before-type", T, [('"lb", [self._device_hash, self._logic_type, batch_mode], r', '"lb", [self._device_hash, batch_mode, self._logic_type], r')], ["R01.l"]),
         N("rename-negation-flag", G, [("negate_test", "is_negated")], all_=True),
         N("reorder-table-rows", U, [('        "==": "eq",\n        "!=": "ne",\n        "<": "lt",', '        "!=": "ne",\n        "<": "lt",\n        "==": "eq",')]),
         N("opcode-through-local", G, [('        data.add(IC10("bge" if is_increasing else "ble", [iter_sym, end, end_label]))', '        exit_test = "bge" if is_increasing else "ble"\n        data.add(IC10(exit_test, [iter_sym, end, end_label]))')]),
@@ -162,6 +163,9 @@ CORPUS = {
         M("bool-not-normalised", T, [("        elif isinstance(value, bool):\n            value = int(value)\n", "")], ["R09.b"]),
         M("version-note-too-late", G, [("if len(lines[i]) + l < 89:", "if len(lines[i]) + l < 120:")], ["R09.c"]),
         M("twelve-digits", T, [('return f"{self.value:.16g}"', 'return f"{self.value:.12g}"')], ["R09.d"]),
+        M("slot-load-operands-swapped", T, [('"ls", [self._id, self._slot_index, self._slot_type], output', '"ls", [self._id, self._slot_type, self._slot_index], output')], ["R09.e"]),
+        M("named-batch-store-hashes-swapped", T, [('"sbn", [self._device_hash, self._name_hash, self._logic_type, value]', '"sbn", [self._name_hash, self._device_hash, self._logic_type, value]')], ["R09.e"]),
+        M("stack-store-address-and-value-swapped", T, [('return IC10Instruction("put", [self._id, self._addr, value])', 'return IC10Instruction("put", [self._id, value, self._addr])')], ["R09.e"]),
         N("bound-rewritten", G, [("if len(lines[i]) + l < 89:", "if len(lines[i]) + l <= 88:")]),
     ],
     "C10": [
